@@ -121,13 +121,15 @@ let rerr_str = function
   | Recovery.ERetire -> "retire"
   | Recovery.EJournalExhausted -> "journal-exhausted"
 
-let open_result_string (version_of : Recovery.opened -> coq_N) (r : Recovery.opened Recovery.res) =
+let open_result_string (orig : coq_N list list) ((r, final) : Recovery.opened Recovery.res * coq_N list list) =
   match r with
   | Recovery.Panic -> "PANIC"
   | Recovery.Rej e ->
     (match e with
-     | Recovery.EInvalidMetadata | Recovery.EInvalidDevice -> "err " ^ rerr_str e ^ " unchanged=1"
-     | _ -> "err " ^ rerr_str e)
+     | Recovery.EInvalidMetadata | Recovery.EInvalidDevice ->
+       Stdlib.Printf.sprintf "err %s unchanged=%d post=%016Lx" (rerr_str e)
+         (if final = orig then 1 else 0) (fnv_image final)
+     | _ -> Stdlib.Printf.sprintf "err %s post=%016Lx" (rerr_str e) (fnv_image final))
   | Recovery.Ok o ->
     let keys = Stdlib.Buffer.create 256 in
     Stdlib.List.iter (fun (e : Recovery.entry) ->
@@ -160,7 +162,7 @@ let run_open toks =
                 Recovery.c_allow_ambiguous = (opt "allow" rest "0" = "1");
                 Recovery.c_now = (if opt "ttl" rest "0" = "1" then Some (n_of_string (opt "now" rest "0")) else None);
                 Recovery.c_recsize = n_of_string (opt "recsize" rest "0") } in
-    open_result_string (fun o -> o.Recovery.o_version) (Recovery.open_image cfg img)
+    open_result_string img (Recovery.open_image cfg img)
   | _ -> failwith "open: missing path"
 
 let run_note _ = "note"
